@@ -3,6 +3,7 @@ package props
 import (
 	"encoding/json"
 	"fmt"
+	"github.com/meshplus/bitxhub-kit/types"
 	"os"
 	"path/filepath"
 	"sort"
@@ -135,13 +136,33 @@ func c11Property(t *rapid.T) {
 	var ops []string
 	f := &failer{t: t, prop: "C11", ops: &ops}
 	ops = append(ops, fmt.Sprintf("node fresh=%v audit=%v height=%d", fresh, audit, w.N.Height()))
+	hg := newHistGen(t, w)
 	genBlock := func(label string) *blockSpec {
 		b := &blockSpec{}
 		n := rapid.IntRange(0, 5).Draw(t, label+"-ntx")
 		for i := 0; i < n; i++ {
 			from := w.N.Admins[rapid.IntRange(0, len(w.N.Admins)-1).Draw(t, label+"-from")]
 			var tx pb.Transaction
-			switch rapid.IntRange(0, 3).Draw(t, label+"-kind") {
+			kindSel := rapid.IntRange(0, 9).Draw(t, label+"-kind")
+			if kindSel >= 7 {
+				// contract deployment and invocation: a block that creates an account (code) and writes storage under it
+				if kindSel == 7 || len(hg.deployed) == 0 {
+					hg.weights = []string{"xvm"}
+				} else {
+					hg.weights = []string{"xvm", "script", "mutated", "store"}
+				}
+				b.txs = append(b.txs, hg.genTx())
+				continue
+			}
+			switch kindSel {
+			case 4:
+				// the first transfer to a contract address creates its account record; together with a script of the
+				// same block the block creates an account and writes storage under it
+				to := []*types.Address{sim.ScriptAddr, types.NewAddressByStr("0x00000000000000000000000000000000000f5c02")}[rapid.IntRange(0, 1).Draw(t, label+"-to")]
+				tx = sim.TransferTx(from, w.Nonces.Next(from), w.TS+1, to, fmt.Sprintf("%d", rapid.IntRange(1, 9).Draw(t, label+"-amt")))
+			case 5, 6:
+				script, _ := genScript(t)
+				tx = w.Script(from, script)
 			case 0:
 				tx = w.Transfer(from, sim.KeyFor("c11-sink"), fmt.Sprintf("%d", rapid.IntRange(0, 50).Draw(t, label+"-amt")))
 			case 1:
@@ -203,6 +224,10 @@ func c11Property(t *rapid.T) {
 		f.fail("cannot reopen the uncrashed node: %v", err)
 	}
 	crashBlock := genBlock("crash")
+	if os.Getenv("C11_FORCE") != "" {
+		a := w.N.Admins[0]
+		crashBlock.txs = append(crashBlock.txs, &txSpec{tx: sim.TransferTx(a, w.Nonces.Next(a), w.TS+1, sim.ScriptAddr, "5"), desc: "tx"}, &txSpec{tx: w.Script(a, "set k0 a;ok"), desc: "tx"})
+	}
 	hashH := exec(w.N, crashBlock)
 	dumpNew := sim.DumpState(w.N.StateDB)
 	w.N.Close()
@@ -341,6 +366,9 @@ func c11Property(t *rapid.T) {
 			return ""
 		}()
 		removeAll(img)
+		if os.Getenv("C11_FORCE") != "" {
+			fmt.Printf("DBG image %s -> %q\n", c.String(), problem)
+		}
 		nt := ""
 		if !(c.state == 0 && c.index == 0 && c.bfStep == 0) && !(c.state == 2 && c.index == 1 && c.bfStep == 10) {
 			nt = fmt.Sprintf("%v/%d/%d/%s/%s", fresh, h, len(crashBlock.txs), c.String(), hashH)
